@@ -112,10 +112,14 @@ def extract(repo, failures):
                          "it->date_time==datetime_suffix){index_to_use+=1;" in rf and "elseif(it->date_time.empty()){index_to_use=it->index;" in rf)
     i_close, i_ren, i_open = rf.find("this->close_file()"), rf.find("_rename_file(existing_file,renamed_file)"), rf.find('this->open_file(this->_filename,"w")')
     facts["closeRenameOpen"] = (0 <= i_close < i_ren < i_open)
-    facts["deleteOnePerRotation"] = bool(re.search(
-        r"if\(_created_files\.size\(\)>_config\.max_backup_files\(\)\)\{fs::pathconstremoved_file=_get_filename\("
+    mdel = re.search(
+        r"(while|if)\(_created_files\.size\(\)>_config\.max_backup_files\(\)\)\{fs::pathconstremoved_file=_get_filename\("
         r"_created_files\.back\(\)\.base_filename,_created_files\.back\(\)\.index,_created_files\.back\(\)\.date_time\);"
-        r"_remove_file\(removed_file\);_created_files\.pop_back\(\);\}", rf))
+        r"_remove_file\(removed_file\);_created_files\.pop_back\(\);\}", rf)
+    facts["deleteOldestFromBack"] = bool(mdel)
+    if not mdel:
+        failures.append("rot: _rotate_files: deletion step (if/while size() > max_backup_files: remove back, pop_back) not recognised")
+    out["deletesAllExcess"] = bool(mdel and mdel.group(1) == "while")
     i_del, i_push = rf.find("_created_files.pop_back()"), rf.find("_created_files.emplace_front(this->_filename,0,std::string{})")
     facts["renameDeletePushOpen"] = (0 <= i_ren < i_del < i_push < i_open)
     facts["openStampAndSizeReset"] = rf.endswith("_open_file_timestamp=record_timestamp_ns;_file_size=0;")
@@ -165,8 +169,10 @@ def extract(repo, failures):
     fr = {"Disabled": ".disabled", "Daily": ".daily", "Hourly": ".hourly", "Minutely": ".minutely"}
     sc = {"Index": ".index", "Date": ".date", "DateAndTime": ".dateTime"}
     L = []
-    L.append("/-- `_time_rotation` advances `_next_rotation_time` from the scheduled point in a loop (repair of F9) -/")
-    L.append("def rotParams : Rot.Params := { advancesFromSchedule := %s }" % lean_bool(out["advancesFromSchedule"]))
+    L.append("/-- `_time_rotation` advances `_next_rotation_time` from the scheduled point in a loop (repair of F9);")
+    L.append("    `_rotate_files` removes every file in excess of `max_backup_files` in a `while` loop (repair of F18) -/")
+    L.append("def rotParams : Rot.Params := { advancesFromSchedule := %s, deletesAllExcess := %s }" % (
+        lean_bool(out["advancesFromSchedule"]), lean_bool(out["deletesAllExcess"])))
     L.append("def rotMinLimit : Nat := %d" % out["minLimit"])
     L.append("def rotSchemes : List String := [%s]" % ", ".join(lean_str(x) for x in out["schemes"]))
     L.append("def rotFreqs : List String := [%s]" % ", ".join(lean_str(x) for x in out["freqs"]))
@@ -189,8 +195,8 @@ def extract(repo, failures):
     return out, "\n".join(L)
 
 
-FALLBACK = ({"advancesFromSchedule": False, "minLimit": 512, "facts": {}},
-            "def rotParams : Rot.Params := { advancesFromSchedule := false }\ndef rotMinLimit : Nat := 512\n"
+FALLBACK = ({"advancesFromSchedule": False, "deletesAllExcess": False, "minLimit": 512, "facts": {}},
+            "def rotParams : Rot.Params := { advancesFromSchedule := false, deletesAllExcess := false }\ndef rotMinLimit : Nat := 512\n"
             "def rotSchemes : List String := []\ndef rotFreqs : List String := []\n"
             "def rotDefaults : Rot.Cfg := { maxBackup := 0 }\ndef rotSizeFacts : List (String × Bool) := [(\"extraction\", false)]\n"
             "def rotTimeFacts : List (String × Bool) := [(\"extraction\", false)]\ndef rotTimeProblems : List String := []")
